@@ -420,13 +420,17 @@ int isa_l_min_fragments(void *desc, int *missing_idxs,
 
 /**
  * Return the element-size, which is the number of bits stored
- * on a given device, per codeword.  This is always 8 in ISA-L
+ * on a given device, per codeword.  The field arithmetic is always
+ * GF(2^8) in ISA-L, but encode pads its buffers to the configured word
+ * size (w, 8 by default), so that is what the size queries must use too.
  *
  * Returns the size in bits!
  */
 int isa_l_element_size(void* desc)
 {
-  return 8;
+    isa_l_descriptor *isa_l_desc = (isa_l_descriptor*) desc;
+
+    return isa_l_desc->w;
 }
 
 int isa_l_exit(void *desc)
